@@ -44,8 +44,17 @@ def run(ctx):
                    "operand and result, then a burst of mutations on the result and, on a fresh pair, on the operand) or one read-only observer (projection with "
                    "identities and rank lists before/after, images rendered twice); seeded random depth 1-3 tensors, canonical and irregular",
            "assumptions": ["what the pixels mean is not judged (an image is an opaque value)"], "scope": {"cases": len(cases), "value_ops": VALUE_OPS, "observers": OBSERVERS}}
-    return family.merge(res, part)
+    res = family.merge(res, part)
+    if getattr(ctx, "round", 0) == 0:
+        from . import suite_family
+        part2 = suite_family.run_suite(ctx, "C10")
+        res["scope"]["suite"] = part2["suite"]
+        family.merge(res, part2)
+    return res
 
 
 def replay(ctx, rec):
+    if "suite_event" in rec.get("behaviour", {}):
+        from . import suite_family
+        return suite_family.replay_suite(ctx, "C10", rec)
     return family.replay_family(ctx, "C10", rec, "harness.exec_alias", "AliasTrace.tla", "AliasTrace.cfg")
